@@ -21,4 +21,21 @@ BUILT = {
                 note=_PARSER_NOTE, design_ref="3 C01"),
 }
 
+BUILT["C02"] = dict(engine="parser-state-explorer", technique="explicit-state BFS over token words + exhaustive byte-edit neighbourhoods + pumped families, step-budget oracle",
+                   text="every explored word (and every single-byte edit / truncation of a corpus of short scripts) must end in True/False within 3*len+16 lexer "
+                        "steps, never raise, and carry a well-formed error / error_pos / result",
+                   note=_PARSER_NOTE + "; regex-internal time is not observable by a step count", design_ref="3 C02")
+BUILT["C03"] = dict(engine="parser-state-explorer", technique="explicit-state BFS over token words; token-conservation and tree-equality oracle vs reference generic tree",
+                   text="for every accepted word the canonical tree of Parser.result must contain exactly the source's tokens (position-unique values) and "
+                        "equal the tree built by the independent RFC 5228 section 8.2 recogniser",
+                   note=_PARSER_NOTE, design_ref="3 C03")
+BUILT["C07"] = dict(engine="parser-state-explorer", technique="explicit-state BFS incl. no-require scenarios; independent walk with frozen extension table + exhaustive require-removal re-runs",
+                   text="every accepted word is walked against the frozen extension table; every valid word is re-run with each needed extension removed "
+                        "and must be rejected with the exact 'extension not loaded' message",
+                   note=_PARSER_NOTE, design_ref="3 C07")
+BUILT["C18"] = dict(engine="parser-state-explorer", technique="explicit-state BFS under position-rich layouts; reference first-invalid-token positions + suffix re-runs",
+                   text="every rejected word is rendered in layouts mixing LF/CRLF, comments and multi-byte text; reported line / error_pos are compared with "
+                        "the reference's first invalidating token (exact for tokens wrong in themselves, lower bound otherwise) and must not change under 4 suffixes",
+                   note=_PARSER_NOTE, design_ref="3 C18")
+
 NOT_BUILT = {}
